@@ -19,8 +19,8 @@
    sssr's ring sizes in general (it is a theorem for minimum cycle bases, hence holds for every certified pair of molecules), "in_ring <-> lies on a cycle" (search against a bridge finder);
    _bfs/_make_pid/_c_set are not modelled. *)
 From Coq Require Import ZArith List Bool Permutation.
-From Model Require Import PyBase Graph Rings RingsFilter.
-From Proofs Require Import RingsProofs RingsMcb RingsRank RingsExt RingsDim RingsFund RingsMin RingsHorton RingsSizes RingsIso RingsEquiv RingsFilterProofs.
+From Model Require Import PyBase Graph Rings RingsFilter RingsGen RingsGenSpec.
+From Proofs Require Import RingsProofs RingsMcb RingsRank RingsExt RingsDim RingsFund RingsMin RingsHorton RingsSizes RingsIso RingsEquiv RingsFilterProofs RingsGenProofs RingsGenWalks.
 Import ListNotations.
 Open Scope Z_scope.
 
@@ -494,3 +494,66 @@ Theorem C06_rings_filter_example :
   connected_rings [[1;2;3]; [1;2;4]] = Ok [[1;3;2;4]].
 Proof. exact ex_rings_filter. Qed.
 Print Assumptions C06_rings_filter_example.
+
+(* ---- (A) the whole perception, end to end (model/RingsGen.v): sssr_model g o = _rings_filter (_c_set (_make_pid (_bfs (_skin_graph g)))) ----
+   CPython's set orders are the oracle o; the theorems hold for EVERY oracle. *)
+
+(* when the path tables are well formed (pid_ok: executable, evaluated per molecule by the check) every candidate of _c_set is a
+   simple cycle of the graph and the candidate stream is sorted by size *)
+Theorem C06_c_set_cycles_sorted : forall g pids cs, gwf g -> pid_ok g pids = true -> c_set pids = Ok cs ->
+  (forall c, In c cs -> is_cycle g c) /\ Sorted.StronglySorted (fun a b : ring => (length a <= length b)%nat) cs.
+Proof. exact c_set_cycles_sorted. Qed.
+Print Assumptions C06_c_set_cycles_sorted.
+
+(* the exact side condition under which the selection is provably right: it finishes in its FIRST phase (every accepted ring has
+   an atom that no earlier accepted ring has; nothing is fetched back from the hold list).  Then, for candidates that are
+   simple cycles and n_sssr = bonds - atoms + components, the result is accepted by the checker.  Inputs outside this side
+   condition need the condensed-ring heuristic; the recorded gap families are among them. *)
+Theorem C06_first_phase_accepted : forall g cands n rs, gwf g -> (forall c, In c cands -> is_cycle g c) ->
+  Z.of_nat n = cyclomatic g -> first_phase cands n -> rings_filter cands n = Ok rs -> is_cycle_basis g rs = true.
+Proof. exact first_phase_accepted. Qed.
+Print Assumptions C06_first_phase_accepted.
+
+Theorem C06_first_phase_b_sound : forall cands n, first_phase_b cands n = true -> first_phase cands n.
+Proof. exact first_phase_b_sound. Qed.
+Print Assumptions C06_first_phase_b_sound.
+
+(* end to end, for every oracle: well-formed tables + first phase => the modelled sssr is a cycle basis *)
+Theorem C06_sssr_model_accepted : forall g o sk paths cs rs, gwf g -> 0 < cyclomatic g ->
+  skin_graph g = Ok sk -> bfs_paths sk o = Ok paths -> pid_ok g (make_pid paths) = true -> c_set (make_pid paths) = Ok cs ->
+  first_phase cs (Z.to_nat (cyclomatic g)) -> sssr_model g o = Ok rs -> is_cycle_basis g rs = true.
+Proof. exact sssr_model_accepted. Qed.
+Print Assumptions C06_sssr_model_accepted.
+
+(* UNCONDITIONALLY, for every oracle (every set order CPython may choose): the chains of _bfs are walks of the pruned graph,
+   every path in the tables of _make_pid is a walk between the atoms it is filed under, and every candidate of the modelled
+   generation that has at least three atoms is a simple cycle of the molecule graph *)
+Theorem C06_bfs_paths_walks : forall g, gwf g -> forall o paths, bfs_paths g o = Ok paths -> Forall (wk g) paths.
+Proof. exact bfs_paths_walks. Qed.
+Print Assumptions C06_bfs_paths_walks.
+
+Theorem C06_make_pid_walks : forall g paths, Forall (wk g) paths -> sinv g (make_pid paths).
+Proof. exact make_pid_walks. Qed.
+Print Assumptions C06_make_pid_walks.
+
+Theorem C06_candidates_are_cycles : forall g o cs, gwf g -> candidates g o = Ok cs ->
+  forall c, In c cs -> (3 <= length c)%nat -> is_cycle g c.
+Proof. exact candidates_are_cycles. Qed.
+Print Assumptions C06_candidates_are_cycles.
+
+Theorem C06_sssr_model_accepted_every_oracle : forall g o cs rs, gwf g -> 0 < cyclomatic g -> candidates g o = Ok cs ->
+  (forall c, In c cs -> (3 <= length c)%nat) -> first_phase cs (Z.to_nat (cyclomatic g)) -> sssr_model g o = Ok rs ->
+  is_cycle_basis g rs = true.
+Proof. exact sssr_model_accepted_every_oracle. Qed.
+Print Assumptions C06_sssr_model_accepted_every_oracle.
+
+Theorem C06_sssr_model_example :
+  let g := [(1,[2;6]);(2,[1;3]);(3,[2;4;8]);(4,[3;5]);(5,[4;6]);(6,[5;1;7]);(7,[6;8]);(8,[7;3])] in
+  let o := [[1]; [2; 6]; [5; 7]; [8; 4]] in
+  bfs_paths g o = Ok [[1; 6]; [1; 2; 3]; [6; 5; 4]; [3; 4]; [6; 7; 8]; [3; 8]] /\
+  pid_ok g (make_pid [[1; 6]; [1; 2; 3]; [6; 5; 4]; [3; 4]; [6; 7; 8]; [3; 8]]) = true /\
+  (exists cs, c_set (make_pid [[1; 6]; [1; 2; 3]; [6; 5; 4]; [3; 4]; [6; 7; 8]; [3; 8]]) = Ok cs /\ first_phase_b cs 2 = true) /\
+  sssr_model g o = Ok [[1; 2; 3; 4; 5; 6]; [1; 2; 3; 8; 7; 6]] /\
+  is_cycle_basis g [[1; 2; 3; 4; 5; 6]; [1; 2; 3; 8; 7; 6]] = true.
+Proof. exact ex_sssr_model. Qed.
+Print Assumptions C06_sssr_model_example.
